@@ -301,11 +301,21 @@ pub(crate) fn check_repository<S: Open>(
         .unwrap_or_default();
 
     if opts.read_data {
-        let packs = index_be
-            .into_index()
+        let all_packs: Vec<_> = index_be.into_index().into_iter().collect();
+        // A blob can be stored in more than one pack (e.g. parallel backups) and any copy may be the
+        // one a later index lookup returns: read every pack which holds a copy of a used blob.
+        let used_blobs: BTreeSet<_> = all_packs
+            .iter()
+            .filter(|p| packs.contains(&p.id))
+            .flat_map(|p| p.blobs.iter().map(|b| (b.tpe, b.id)))
+            .collect();
+        let is_used = |p: &IndexPack| {
+            packs.contains(&p.id) || p.blobs.iter().any(|b| used_blobs.contains(&(b.tpe, b.id)))
+        };
+        let packs = all_packs
             .into_iter()
             .filter(|p| !missing_packs.contains_key(&p.id))
-            .filter(|p| packs.contains(&p.id));
+            .filter(is_used);
 
         debug!("using read-data-subset {:?}", opts.read_data_subset);
         let packs = opts.read_data_subset.apply(packs);
